@@ -485,7 +485,7 @@ def main(chk: Check):
 
     # ---- ctor stream
     ctor_cases = []
-    for _ in range(chk.n(120, 500)):
+    for _ in range(chk.n(100, 500)):
         name, args, q = g.simple_leaf() if rng.random() < 0.5 else g.chart_leaf()
         res = [v_query(s_query(q)), v_params(q)]
         ctor_cases.append((cpair(cN(Gen.CTOR_ID[name]), c_strs(args)), res))
@@ -500,11 +500,11 @@ def main(chk: Check):
     g.do_anyof([Q(), Q.keywords("z")])
     g.do_anyof([Q.keywords(), Q.keywords("z")])
     exprs = []
-    for _ in range(chk.n(90, 450)):
+    for _ in range(chk.n(70, 450)):
         q = g.expr(rng.choice([1, 2, 2, 3, 4]))
         if not isinstance(q, Err):
             exprs.append(q)
-    raws = [g.raw_query() for _ in range(chk.n(50, 250))]
+    raws = [g.raw_query() for _ in range(chk.n(40, 250))]
     for q in raws[: len(raws) // 3]:  # raw trees also take part in &
         g.do_and(q, g.expr(1))
 
@@ -546,7 +546,7 @@ def main(chk: Check):
         params_meta.append(s)
         if sum(nslots(c) for c in s["charts"]) >= 2 or len(s["simple"]) >= 2:
             chk.nontrivial(("params", key))
-    params_cases = params_cases[: chk.n(350, 1800)]
+    params_cases = params_cases[: chk.n(250, 1800)]
     chk.count("params", len(params_cases))
     chk.sample({"stream": "params", "query": params_meta[-1], "impl": params_cases[-1][1]})
 
@@ -563,7 +563,7 @@ def main(chk: Check):
 
     # ---- enclen stream
     enclen_cases = []
-    for q in rng.sample(exprs + raws, min(len(exprs + raws), chk.n(120, 1000))):
+    for q in rng.sample(exprs + raws, min(len(exprs + raws), chk.n(80, 600))):
         enclen_cases.append((c_query(s_query(q)), len(urllib.parse.urlencode(q.params()))))
     for w in ["", "a b+c/é€𝄞~_.-", "=dev-libs/foo-1.2.3_p1-r3", "%&=?#"]:
         q = Q.keywords(w, w) & Q.cc(w)
@@ -623,7 +623,7 @@ def main(chk: Check):
 
     batch_inputs = [(Q.ids(range(900000, 900400)), 0, 700), (Q.ids([1, 2, 3]), 0, m.MAX_URL_LENGTH),
                     (short_field_query(10, 120), 0, 400), (short_field_query(3, 40), 10, 200)]
-    for _ in range(chk.n(60, 300)):
+    for _ in range(chk.n(48, 300)):
         q = batch_query()
         mode = rng.random()
         if mode < 0.15:
